@@ -35,6 +35,8 @@ pub struct Spec {
     pub grain: Grain,
     pub chunk: Option<usize>,
     pub fault_at: Option<usize>,
+    /// index into `source::FAULT_KINDS` (0 = Other)
+    pub fault_kind: usize,
     pub interrupts: u32,
     pub line_gated: bool,
     pub forced: Vec<(u32, u32)>,
@@ -44,7 +46,7 @@ pub struct Spec {
 
 impl Spec {
     pub fn oneshot() -> Spec {
-        Spec { grain: Grain::OneShot, chunk: None, fault_at: None, interrupts: 0, line_gated: false, forced: vec![], via_buf_reader: None }
+        Spec { grain: Grain::OneShot, chunk: None, fault_at: None, fault_kind: 0, interrupts: 0, line_gated: false, forced: vec![], via_buf_reader: None }
     }
     pub fn uniform(s: usize, chunk: Option<usize>) -> Spec {
         Spec { grain: Grain::Uniform(s), chunk, ..Spec::oneshot() }
@@ -54,6 +56,10 @@ impl Spec {
     }
     pub fn fault(mut self, k: Option<usize>) -> Spec {
         self.fault_at = k;
+        self
+    }
+    pub fn fault_kind(mut self, k: usize) -> Spec {
+        self.fault_kind = k;
         self
     }
     pub fn via_buf_reader(mut self, cap: usize) -> Spec {
@@ -74,6 +80,7 @@ impl Spec {
             },
             "chunk": self.chunk,
             "fault_at": self.fault_at,
+            "fault_kind": self.fault_kind,
             "interrupts": self.interrupts,
             "line_gated": self.line_gated,
             "via_buf_reader": self.via_buf_reader,
@@ -90,6 +97,7 @@ impl Spec {
             grain,
             chunk: v["chunk"].as_u64().map(|c| c as usize),
             fault_at: v["fault_at"].as_u64().map(|c| c as usize),
+            fault_kind: v["fault_kind"].as_u64().unwrap_or(0) as usize,
             interrupts: v["interrupts"].as_u64().unwrap_or(0) as u32,
             line_gated: v["line_gated"].as_bool().unwrap_or(false),
             via_buf_reader: v["via_buf_reader"].as_u64().map(|c| c as usize),
@@ -106,7 +114,7 @@ impl Spec {
         format!(
             "{g}, chunk {}{}{}{}",
             self.chunk.map_or("default".to_string(), |c| c.to_string()),
-            self.fault_at.map_or(String::new(), |k| format!(", source fails at offset {k}")),
+            self.fault_at.map_or(String::new(), |k| format!(", source fails at offset {k} with {:?}", crate::source::FAULT_KINDS[self.fault_kind % crate::source::FAULT_KINDS.len()])),
             if self.interrupts > 0 { format!(", up to {} Interrupted", self.interrupts) } else { String::new() },
             if self.line_gated { ", line gated" } else { "" }
         ) + &self.via_buf_reader.map_or(String::new(), |c| format!(", via from_buf_reader(BufReader of {c} bytes, filled once)"))
@@ -123,7 +131,7 @@ pub fn run_spec(subject: &dyn Subject, input: &[u8], spec: &Spec) -> Execution {
     };
     let _guard = crate::abortguard::enter(&describe);
     let boundaries = if spec.line_gated { Some(subject.boundaries(input)) } else { None };
-    let cfg = SourceCfg::new(input, spec.grain.clone()).fault_at(spec.fault_at).interrupts(spec.interrupts).boundaries(boundaries.as_deref());
+    let cfg = SourceCfg::new(input, spec.grain.clone()).fault_at(spec.fault_at).fault_kind(spec.fault_kind).interrupts(spec.interrupts).boundaries(boundaries.as_deref());
     crate::subject::execute_via(subject, cfg, spec.chunk, spec.forced.clone(), spec.via_buf_reader)
 }
 
@@ -364,6 +372,13 @@ pub fn c04(subjects: &[Box<dyn Subject>], docs: &[Doc], params: &C04Params, budg
                     specs.push(Spec::uniform(s, Some(s.max(1))).fault(Some(k)));
                 }
                 specs.push(Spec::uniform(2, Some(2)).fault(Some(k)).via_buf_reader(4));
+                // every other non-Interrupted error kind (the property quantifies over all of them)
+                for kind in 1..crate::source::FAULT_KINDS.len() {
+                    specs.push(Spec::oneshot().fault(Some(k)).fault_kind(kind));
+                    if matches!(crate::source::FAULT_KINDS[kind], std::io::ErrorKind::UnexpectedEof | std::io::ErrorKind::WouldBlock | std::io::ErrorKind::TimedOut | std::io::ErrorKind::InvalidData | std::io::ErrorKind::WriteZero) {
+                        specs.push(Spec::uniform(1, Some(1)).fault(Some(k)).fault_kind(kind));
+                    }
+                }
                 for spec in &specs {
                     let ex = run_spec(subject, input, spec);
                     judge(spec, &ex, acc);
